@@ -115,6 +115,7 @@ class Contract(object):
         self.covers = kw.pop('covers', True)
         self.ghost_exit = list(kw.pop('ghost_exit', []))
         self.escape_props = kw.pop('escape_props', None)
+        self.interference = dict(kw.pop('interference', {}))   # lock name -> dict(props=[..], havoc=[paths], stable=[(cond, expr)])
         self.lets = list(kw.pop('lets', []))       # [(name, expr)]: abbreviations available to ensures / raises / defines
         self.at_return = {k: _clauses(v, 'ret%s-' % k) for k, v in kw.pop('at_return', {}).items()}
         if kw:
